@@ -448,8 +448,14 @@ def parse_file(path, want=None):
                 if line == "}":
                     cur_alloc = None
                     continue
-                mm = re.match(r"\s+0x[0-9a-f]+ │ ([^│]*)│", line)
-                if mm and allocs[cur_alloc][1] is not None:
+                mm = re.match(r"^\s+╾─*(alloc\d+)<imm>─*╼ ((?:[0-9a-f]{2} ){8})│", line)
+                if mm and allocs[cur_alloc][1] == []:
+                    # a single fat pointer (&str / &[u8] static): (target alloc, length)
+                    n = int.from_bytes(bytes(int(t, 16) for t in mm.group(2).split()), "little")
+                    allocs[cur_alloc][1] = ("fatptr", mm.group(1), n)
+                    continue
+                mm = re.match(r"\s+0x[0-9a-f]+ │ ([^│]*)│", line) or re.match(r"^\s+((?:[0-9a-f]{2} )+)\s*│", line)
+                if mm and isinstance(allocs[cur_alloc][1], list):
                     toks = mm.group(1).split()
                     if all(re.match(r"^[0-9a-f]{2}$", t) for t in toks):
                         allocs[cur_alloc][1].extend(int(t, 16) for t in toks)
